@@ -442,3 +442,6 @@ def run(db, ctx):
     from . import C01
     common.shared_rule(db, ctx, C01.kernel_rules, 'R10.5', 'every scoring kernel sums all M rows of the matrix it is given at every position (lane semantics of the '
                        'SIMD kernels and the generic kernel) — shared with R1.1', ['R1.1'])
+    from . import C04
+    common.shared_rule(db, ctx, C04.lookahead_rules, 'R10.6', 'the look-ahead rows the kernels read for the last positions of either strand are what configure_wrap put there '
+                       '(shared with R4.5 / R4.8): the mirror clause pairs the first positions of one strand with the last positions of the other', ['R4.5', 'R4.8'])
